@@ -86,6 +86,13 @@ class Spec:
         self.asserts = kw.get("asserts", "drop")
         self.assert_exit = kw.get("assert_exit")
         self.body_filter = kw.get("body_filter")
+        self.predeclare = list(kw.get("predeclare", []))      # [(lean var, lean init text)]: variables first assigned inside branches
+        self.try_passthrough = kw.get("try_passthrough", False)
+        self.raise_map = dict(kw.get("raise_map", {}))          # {distinctive substring of the raise statement: lean error value}
+        self.error_type = kw.get("error_type")                  # lean type of the error values: result becomes `Except error_type _`
+        self.fuel_error = kw.get("fuel_error")                  # error value a `while` leaves with when the fuel runs out (Except mode)
+        self.bind_map = dict(kw.get("bind_map", {}))            # {unparse(stmt): (lean pattern, lean call returning Except)}: error is passed on
+        self.drop_calls = list(kw.get("drop_calls", []))        # statements `f(...)` with `f` in this list are dropped (logging)
         self.doc = kw.get("doc", "")
         for n, t in self.params:
             self.types.setdefault(n, t)
@@ -138,6 +145,10 @@ def _assigned(stmts, spec):
                 add(spec.pop_map[u][0])
                 add(spec.pop_map[u][1])
                 continue
+            if u in spec.bind_map:
+                for v in re.findall(r"[A-Za-z_][A-Za-z_0-9']*", spec.bind_map[u][0]):
+                    add(v)
+                continue
             if isinstance(s, ast.Assign):
                 for t in s.targets:
                     tgt(t)
@@ -155,7 +166,9 @@ def _assigned(stmts, spec):
                 if isinstance(s, ast.For):
                     pass        # the loop pattern variables are local to the loop
                 walk(s.body)
-            elif isinstance(s, ast.Assign) is False and isinstance(s, (ast.Return, ast.Break, ast.Continue, ast.Assert, ast.Expr, ast.Pass)):
+            elif isinstance(s, ast.Try) and spec.try_passthrough:
+                walk(s.body)
+            elif isinstance(s, ast.Assign) is False and isinstance(s, (ast.Return, ast.Break, ast.Continue, ast.Assert, ast.Expr, ast.Pass, ast.Raise)):
                 pass
             else:
                 U("statement " + u[:80])
@@ -168,6 +181,10 @@ def _has_ctrl(stmts, kinds, spec):
     for s in stmts:
         if ast.unparse(s) in spec.stmt_map:
             continue
+        if ast.unparse(s) in spec.bind_map:
+            if "raise" in kinds:
+                return True
+            continue
         if isinstance(s, ast.Return) and "return" in kinds:
             return True
         if isinstance(s, ast.Break) and "break" in kinds:
@@ -176,13 +193,19 @@ def _has_ctrl(stmts, kinds, spec):
             return True
         if isinstance(s, ast.Assert) and "assert" in kinds and spec.asserts == "error":
             return True
+        if isinstance(s, ast.Raise) and "raise" in kinds:
+            return True
         if isinstance(s, ast.If):
             if _has_ctrl(s.body, kinds, spec) or _has_ctrl(s.orelse, kinds, spec):
                 return True
+        if isinstance(s, ast.While) and "loop" in kinds:
+            return True
         if isinstance(s, (ast.While, ast.For)):
-            inner = [k for k in kinds if k in ("return", "assert")]
+            inner = [k for k in kinds if k in ("return", "assert", "loop", "raise")]
             if inner and _has_ctrl(s.body, inner, spec):
                 return True
+        if isinstance(s, ast.Try) and spec.try_passthrough and _has_ctrl(s.body, kinds, spec):
+            return True
     return False
 
 
@@ -301,6 +324,8 @@ class Translator:
             return []
         if isinstance(s, ast.Pass):
             return []
+        if isinstance(s, ast.Expr) and isinstance(s.value, ast.Call) and ast.unparse(s.value.func) in sp.drop_calls:
+            return []
         if isinstance(s, ast.Assert) and sp.asserts == "drop":
             self.dropped.append(u[:100])
             return []
@@ -320,6 +345,11 @@ class Translator:
             if isinstance(t, ast.Name):
                 n = self.name(t.id)
                 return [(n, "(%s %s %s)" % (n, _BIN[type(s.op)], self.expr(s.value)))]
+            if isinstance(t, ast.Subscript) and ast.unparse(t.value) in sp.index_set and ast.unparse(t.value) in sp.index_map:
+                var, tmpl = sp.index_set[ast.unparse(t.value)]
+                k = self.expr(t.slice)
+                cur = "(" + sp.index_map[ast.unparse(t.value)].format(k=k) + ")"
+                return [(var, tmpl.format(k=k, v="(%s %s %s)" % (cur, _BIN[type(s.op)], self.expr(s.value)), old=var))]
             U("augmented assignment " + u[:80])
         if isinstance(s, ast.Expr) and isinstance(s.value, ast.Call) and isinstance(s.value.func, ast.Attribute):
             f = s.value.func
@@ -349,6 +379,10 @@ class Translator:
             return k.fall(defined)
         s, rest = stmts[0], stmts[1:]
         u = ast.unparse(s)
+        if u in sp.bind_map:
+            pat, call = sp.bind_map[u]
+            vs = set(re.findall(r"[A-Za-z_][A-Za-z_0-9']*", pat))
+            return ["match %s with" % call, "| .error e__ => .error e__", "| .ok %s =>" % pat] + ind(self.block(rest, k, defined | vs))
         if u in sp.pop_map:
             x, stream = sp.pop_map[u]
             return ["match %s with" % stream, "| [] => none", "| %s :: %s =>" % (x, stream)] + \
@@ -385,11 +419,18 @@ class Translator:
             if k.cont is None:
                 U("continue outside a loop")
             return k.cont(defined)
+        if isinstance(s, ast.Raise):
+            if not sp.raise_map:
+                U("raise " + u[:60])
+            for key, val in sp.raise_map.items():
+                if key in u:
+                    return [".error " + val]
+            U("raise statement not in the spec's raise_map: " + u[:80])
         if isinstance(s, ast.Assert) and sp.asserts == "error":
             return ["if %s then" % self.expr(s.test)] + ind(self.block(rest, k, defined)) + ["else"] + \
                 ind(k.ret(None, defined, error=True))
         if isinstance(s, ast.If):
-            ctrl = ("return", "break", "continue", "assert")
+            ctrl = ("return", "break", "continue", "assert", "loop", "raise")
             if _has_ctrl(s.body, ctrl, sp) or _has_ctrl(s.orelse, ctrl, sp):
                 # duplicate the continuation into both branches
                 return ["if %s then" % self.expr(s.test)] + ind(self.block(list(s.body) + rest, k, defined)) + ["else"] + \
@@ -397,8 +438,9 @@ class Translator:
             mod = [v for v in _assigned(list(s.body) + list(s.orelse), sp)]
             # variables first defined inside the branches and not needed later are branch-local
             live = [v for v in mod if v in defined or self._used_later(v, rest)]
+            both = set(_assigned(list(s.body), sp)) & set(_assigned(list(s.orelse), sp))
             for v in live:
-                if v not in defined:
+                if v not in defined and v not in both:
                     U("variable %s defined in only one branch and used later" % v)
             if not live:
                 return self.block(rest, k, defined)
@@ -410,6 +452,10 @@ class Translator:
             if len(tb_) == 1 and len(eb) == 1:
                 rhs = ["if %s then %s else %s" % (self.expr(s.test), tb_[0], eb[0])]
             return self.bind_tuple(live, rhs, self.block(rest, k, defined))
+        if isinstance(s, ast.Try) and sp.try_passthrough and not s.orelse and not s.finalbody and \
+                all(len(h.body) == 1 and isinstance(h.body[-1], ast.Raise) or (len(h.body) == 2 and isinstance(h.body[-1], ast.Raise)) for h in s.handlers):
+            self.dropped.append("except-handlers that only re-raise: " + ", ".join(ast.unparse(h.type) if h.type else "bare" for h in s.handlers))
+            return self.block(list(s.body) + rest, k, defined)
         if isinstance(s, ast.While):
             return self.while_loop(s, rest, k, defined)
         if isinstance(s, ast.For):
@@ -417,14 +463,68 @@ class Translator:
         U("statement " + u[:80])
 
     def _used_later(self, v, rest):
-        for s in rest:
-            for n in ast.walk(s):
-                if isinstance(n, ast.Name) and self.name(n.id) == v:
-                    return True
-            if re.search(r"\b%s\b" % re.escape(v), " ".join(
-                    t for st in ast.walk(s) if isinstance(st, ast.stmt) for t in self._mapped_text(st))):
-                return True
-        return False
+        return self._rbw(v, rest) == "read"
+
+    def _names_in(self, node):
+        out = set()
+        for n in ast.walk(node):
+            if isinstance(n, ast.Name):
+                out.add(self.name(n.id))
+        # whole-expression renderings may mention Lean variables
+        for n in ast.walk(node):
+            if isinstance(n, ast.expr):
+                u = ast.unparse(n)
+                if u in self.spec.expr_map:
+                    out |= set(re.findall(r"[A-Za-z_][A-Za-z_0-9']*", self.spec.expr_map[u]))
+        return out
+
+    def _rbw(self, v, stmts):
+        """is `v` read before it is (re)written in `stmts`?  'read' | 'killed' | 'none' (conservative: 'read' when in doubt)"""
+        sp = self.spec
+        for s in stmts:
+            u = ast.unparse(s)
+            if u in sp.stmt_map:
+                for var, rhs in sp.stmt_map[u]:
+                    if re.search(r"(?<![A-Za-z_0-9'.])%s(?![A-Za-z_0-9'])" % re.escape(v), rhs):
+                        return "read"
+                    if var == v:
+                        return "killed"
+                continue
+            if u in sp.pop_map:
+                x, stream = sp.pop_map[u]
+                if stream == v:
+                    return "read"
+                if x == v:
+                    return "killed"
+                continue
+            if isinstance(s, ast.Assign) and len(s.targets) == 1 and isinstance(s.targets[0], ast.Name):
+                if v in self._names_in(s.value):
+                    return "read"
+                if self.name(s.targets[0].id) == v:
+                    return "killed"
+                continue
+            if isinstance(s, ast.If):
+                if v in self._names_in(s.test):
+                    return "read"
+                a, b = self._rbw(v, s.body), self._rbw(v, s.orelse)
+                if "read" in (a, b):
+                    return "read"
+                if a == "killed" and b == "killed":
+                    return "killed"
+                continue
+            if isinstance(s, (ast.For, ast.While)):
+                head = s.iter if isinstance(s, ast.For) else s.test
+                if v in self._names_in(head) or self._rbw(v, s.body) == "read":
+                    return "read"
+                continue
+            if isinstance(s, ast.Try):
+                r = self._rbw(v, s.body)
+                if r != "none":
+                    return r
+                continue
+            if v in self._names_in(s):
+                return "read"
+        return "none"
 
     def _mapped_text(self, st):
         u = ast.unparse(st)
@@ -459,7 +559,12 @@ class Translator:
 
         def again(d):
             return [call_holder["call"]]
-        kb = K(again, None, brk=lambda d: ["some " + st_tuple], cont=again)
+        exc = bool(sp.raise_map)
+        if exc and not sp.fuel_error:
+            U("while in a function that raises: the spec must give fuel_error")
+        OK = ".ok " if exc else "some "
+        FAIL = (".error " + sp.fuel_error) if exc else "none"
+        kb = K(again, None, brk=lambda d: [OK + st_tuple], cont=again)
         call_holder["call"] = "%s __INV__ fuel %s" % (aux, " ".join(state))
         body = self.block(list(s.body), kb, set(defined))
         cond = self.expr(s.test)
@@ -467,15 +572,17 @@ class Translator:
         call = ("%s %s fuel %s" % (aux, " ".join(inv), " ".join(state))).replace("  ", " ")
         body = [ln.replace("%s __INV__ fuel" % aux, ("%s %s fuel" % (aux, " ".join(inv))).replace("  ", " ")) for ln in body]
         sig_inv = " ".join("(%s : %s)" % (v, self._ty(v)) for v in inv)
-        lines = ["/-- `while %s:` of `%s` (fuel = maximal number of iterations; `none` = out of fuel) -/" % (ast.unparse(s.test), self.fn.name),
-                 ("def %s %s %s : Nat → %s → Option %s" % (aux, sp.header, sig_inv, " → ".join(self._ty(v) for v in state),
-                                                          self.tuple_ty(state))).replace("  ", " "),
-                 "  | 0, %s => none" % ", ".join("_" for _ in state),
+        rty = ("Except %s (%s)" % (sp.error_type, self.tuple_ty(state))) if exc else ("Option %s" % self.tuple_ty(state))
+        lines = ["/-- `while %s:` of `%s` (fuel = maximal number of iterations) -/" % (ast.unparse(s.test), self.fn.name),
+                 ("def %s %s %s : Nat → %s → %s" % (aux, sp.header, sig_inv, " → ".join(self._ty(v) for v in state), rty)).replace("  ", " "),
+                 "  | 0, %s => %s" % (", ".join("_" for _ in state), FAIL),
                  "  | fuel + 1, %s =>" % ", ".join(state),
-                 "    if %s then" % cond] + ind(body, 3) + ["    else some " + st_tuple]
+                 "    if %s then" % cond] + ind(body, 3) + ["    else " + OK + st_tuple]
         self.aux.append(lines)
         after = self.block(rest, k, defined)
-        return ["match %s with" % call.replace(" fuel ", " fuel "), "| none => none", "| some %s =>" % st_tuple] + ind(after)
+        if exc:
+            return ["match %s with" % call, "| .error e__ => .error e__", "| .ok %s =>" % st_tuple] + ind(after)
+        return ["match %s with" % call, "| none => none", "| some %s =>" % st_tuple] + ind(after)
 
     def _ty(self, v):
         if v not in self.spec.types:
@@ -494,18 +601,26 @@ class Translator:
         it = self.expr(s.iter)
         ukey = ast.unparse(s.iter)
         elem_ty = sp.types.get("for:" + ukey) or U("no element type given for iteration over " + ukey)
+        if " " in elem_ty and not elem_ty.startswith("("):
+            elem_ty = "(" + elem_ty + ")"
         state = [v for v in _assigned(s.body, sp) if v in defined]
         if not state:
             U("for loop without state")
         if _has_ctrl(s.body, ("return",), sp):
             U("return inside for")
         err = sp.asserts == "error" and _has_ctrl(s.body, ("assert",), sp)
+        exc = bool(sp.raise_map) and _has_ctrl(s.body, ("raise",), sp)
+        if err and exc:
+            U("assert-as-error and raise in one loop")
         opt = any(isinstance(n, ast.While) for n in ast.walk(s)) or any(ast.unparse(n) in sp.pop_map for n in ast.walk(s) if isinstance(n, ast.stmt))
         if opt:
             U("while / stream draw nested in for")
         st_tuple = self.tuple_of(state)
         res_tuple = "(%s, true)" % st_tuple if err else st_tuple
         res_ty = "(%s × Bool)" % self.tuple_ty(state) if err else self.tuple_ty(state)
+        if exc:
+            res_tuple = ".ok " + st_tuple
+            res_ty = "Except %s (%s)" % (sp.error_type, self.tuple_ty(state))
 
         def again(d):
             return ["%s __INV__ rest__ %s" % (aux, " ".join(state))]
@@ -527,6 +642,8 @@ class Translator:
         self.aux.append(lines)
         after = self.block(rest, k, defined)
         call = ["%s%s %s %s" % (aux, inv_s, it, " ".join(state))]
+        if exc:
+            return ["match %s with" % call[0], "| .error e__ => .error e__", "| .ok %s =>" % st_tuple] + ind(after)
         if err:
             return ["match %s with" % call[0], "| (%s, false) =>" % st_tuple] + ind(k.ret(None, defined, error=True)) + \
                 ["| (%s, true) =>" % st_tuple] + ind(after)
@@ -541,6 +658,10 @@ class Translator:
         if sp.body_filter:
             body = sp.body_filter(body)
         wrap = (lambda t: "some " + t) if self.optional else (lambda t: t)
+        if sp.raise_map:
+            if sp.pop_map:
+                U("raise together with stream draws")
+            wrap = lambda t: ".ok " + t      # noqa: E731
 
         def on_ret(e, d, error=False):
             if error:
@@ -554,9 +675,15 @@ class Translator:
                 U("control reaches the end of the function and the spec gives no end_return")
             return [wrap(sp.end_return)]
         defined = set(n for n, _ in sp.params)
-        lines = self.block(body, K(on_fall, on_ret), defined)
+        pre = []
+        for v, init in sp.predeclare:
+            pre.append("let %s : %s := %s" % (v, self._ty(v), init))
+            defined.add(v)
+        lines = pre + self.block(body, K(on_fall, on_ret), defined)
         params = " ".join("(%s : %s)" % (n, t) for n, t in sp.params)
         rty = ("Option (%s)" % sp.result_type) if self.optional else sp.result_type
+        if sp.raise_map:
+            rty = "Except %s (%s)" % (sp.error_type, sp.result_type)
         fuel = "(fuel : Nat) " if self.uses_fuel else ""
         main = ["/-- `%s` -- %s -/" % (self.fn.name, sp.doc),
                 ("def %s %s %s%s : %s :=" % (sp.name, sp.header, fuel, params, rty)).replace("  ", " ")] + ind(lines)
